@@ -58,6 +58,25 @@ def overlay_json(extra=None):
     return path
 
 
+def gated_linter():
+    """Overlay copy of pkg/linter/linter.go with the schedule gates inserted (source-to-source, from the
+    CURRENT file; returns (overlay-entry dict, ok)). Fails closed: if an anchor is missing the copy is not
+    produced and the caller falls back to free-running schedules."""
+    src_path = os.path.join(REPO, "pkg", "linter", "linter.go")
+    src = open(src_path).read()
+    a1 = "\t\t\tmu.Lock()\n\t\t\tdefer mu.Unlock()\n"
+    a2 = "\tselect {\n\tcase <-ctx.Done():\n\t\treturn report.Report{}, fmt.Errorf(\"context cancelled: %w\", ctx.Err())\n\tcase err := <-errCh:"
+    if src.count(a1) != 1 or src.count(a2) != 1:
+        return {}, False
+    out = src.replace(a1, "\t\t\tverifGate(name)\n" + a1 + "\t\t\tdefer verifGateDone(name)\n")
+    out = out.replace(a2, "\tverifBeforeSelect()\n\n" + a2)
+    os.makedirs(BUILD, exist_ok=True)
+    dst = os.path.join(BUILD, "linter_gated.go")
+    with open(dst, "w") as fh:
+        fh.write(out)
+    return {src_path: dst}, True
+
+
 def build_oracle(extra=None, name="oracle", race=False):
     """Builds the oracle from the CURRENT working tree of the repository."""
     t0 = time.time()
@@ -108,6 +127,20 @@ def run_lines(binary, cases, timeout=900, cwd=None, env=None):
         results[crashed["id"]] = {"id": crashed["id"], "crash": (p.stderr or "")[-2000:], "rc": p.returncode}
         pending = rest[1:]
     return results
+
+
+def run_lines_parallel(binary, cases, procs=14, min_chunk=6, **kw):
+    """Same as run_lines, but spreads the cases over several processes of the binary."""
+    import concurrent.futures
+    n = max(1, min(procs, len(cases) // min_chunk))
+    if n == 1:
+        return run_lines(binary, cases, **kw)
+    chunks = [cases[i::n] for i in range(n)]
+    out = {}
+    with concurrent.futures.ThreadPoolExecutor(max_workers=n) as ex:
+        for r in ex.map(lambda ch: run_lines(binary, ch, **kw), chunks):
+            out.update(r)
+    return out
 
 
 # --------------------------------------------------------------------------- Lean side
